@@ -220,6 +220,34 @@ fn udp_cases(s: &mut Session, cr: &mut Crafter, rng: &mut Rng, thorough: bool) {
     }
 }
 
+/// VMess server, body chunk headers as a third-party client (or a tamperer of the unauthenticated size field) may
+/// send them: for every option mask, sizes from 0 upwards — smaller than the padding, smaller than the tag, exact
+fn vmess_forged_sizes(s: &mut Session, cr: &mut Crafter, rng: &mut Rng, thorough: bool) {
+    for sec in [3u32, 4] {
+        for mask in [0x01u32, 0x05, 0x09, 0x0d, 0x11, 0x1d] {
+            s.begin_case(&format!("vmess-server:forged-size:mask{:02x}:sec{}", mask, sec));
+            let uuid = random_uuid(rng);
+            let addr = random_addr(rng);
+            let vm_target = unhex(s.run(&format!("addr.enc vm {}", addr)).strip_prefix("ok ").unwrap_or("-")).unwrap_or_default();
+            let sizes: Vec<usize> = if thorough { (0..=90).chain([2048, 2049, 16383, 65535]).collect() } else { vec![0, 1, 2, 7, 15, 16, 17, 18, 31, 33, 47, 62, 63, 64, 79, 80, 81, 65535] };
+            for n in sizes {
+                let sv = s.fresh("s");
+                s.run(&format!("vm.server {} users=u:{}", sv, uuid));
+                let first = if rng.chance(1, 2) { hex(&rng.bytes(20)) } else { "none".to_owned() };
+                let Some(wire) = crate::c03::vm_crafted_request(s, cr, rng, &uuid, &vm_target, mask, sec, &first, Some(n)) else {
+                    s.oracle_fail("craft", "spec builder unavailable");
+                    return;
+                };
+                let d = feed_all(s, &sv, &[wire], true);
+                if d.panic {
+                    s.oracle_fail(&format!("panic:vmess-server:size{}", if mask & 0x10 != 0 { ":auth" } else if mask & 4 != 0 { ":masked" } else { ":plain" }), &format!("options {:#04x}: a chunk whose size field says {} made the decoder panic", mask, n));
+                }
+            }
+            s.mark_nontrivial();
+        }
+    }
+}
+
 pub fn generate(s: &mut Session, tier: &str, rng: &mut Rng) {
     let thorough = tier == "thorough";
     let mut targets = vec![];
@@ -342,7 +370,10 @@ pub fn generate(s: &mut Session, tier: &str, rng: &mut Rng) {
     }
     s.mark_nontrivial();
     match Crafter::new() {
-        Some(mut cr) => udp_cases(s, &mut cr, rng, thorough),
+        Some(mut cr) => {
+            udp_cases(s, &mut cr, rng, thorough);
+            vmess_forged_sizes(s, &mut cr, rng, thorough);
+        }
         None => {
             s.begin_case("no-driver");
             s.oracle_fail("craft", "the Lean driver could not be started for Spec-side building");
